@@ -108,7 +108,8 @@ class Scheduler:
         return f"{code.co_qualname}:{ins.opname}:{arg}"
 
     def on_start(self, code, offset):
-        if not code.co_filename.endswith(self.entry_files):
+        if not code.co_filename.endswith(self.entry_files) or code.co_name == "<module>":
+            # (ptera executes the definition of a variant as module-level code of the same file: that is tooling, not a call)
             return mon.DISABLE
         tid = self.tid_of.get(threading.get_ident())
         if tid is None:
